@@ -255,7 +255,7 @@ func c19(c *Ctx) {
 			okSkip := body != nil
 			if okSkip {
 				seen, _ := dg.Reach([]*GNode{body}, func(y *GNode) bool { return y == merges[0] }, func(e *GEdge) bool {
-					return edgeImplies(e, func(cnd ast.Expr, pol int) bool {
+					return dg.edgeImpliesDeep(e, func(cnd ast.Expr, pol int) bool {
 						// detector == nil
 						if nn, ok := nilCmp(info, cnd, pol, func(x ast.Expr) bool {
 							tv, has := info.Types[x]
@@ -286,7 +286,7 @@ func c19(c *Ctx) {
 			okFail := start != nil
 			if okFail {
 				seen, _ := dg.Reach([]*GNode{start}, nil, func(e *GEdge) bool {
-					return edgeImplies(e, func(cnd ast.Expr, pol int) bool {
+					return dg.edgeImpliesDeep(e, func(cnd ast.Expr, pol int) bool {
 						if nn, ok := nilCmp(info, cnd, pol, isDetErr); ok && !nn {
 							return true
 						}
